@@ -150,6 +150,116 @@ def c12_signature(v: dict) -> str:
     return f"C12/{a[0]}.{a[1]}-vs-{b[0]}.{b[1]}/{where}/{v['what']}"
 
 
+
+# ---------------------------------------------------------------------------
+# attempt timeouts that really fire (real time, no virtual clock): the sync and async twins and
+# the wrappers must still perform the same invocations and report the same events
+# ---------------------------------------------------------------------------
+ATT_TIMEOUT = 0.15      # real seconds: wide enough not to fire on an attempt that returns at once
+HANG_SCRIPTS = [["hang", "ok"], ["hang", "hang", "ok"], ["exc", "hang", "ok"], ["hang", "exc", "exc"],
+                ["hang", "hang", "hang"], ["ok"]]
+
+
+def _timeout_run(entry: str, script: list[str], mode: str) -> list:
+    import asyncio
+    import threading
+
+    import redress.policy as rp
+    from redress.errors import ErrorClass
+
+    is_async = entry.startswith("Async") or entry == "async-decorator"
+    log: list = []
+    release = threading.Event()
+    n = {"i": 0}
+
+    class Boom(Exception):
+        pass
+
+    def outcome():
+        i = n["i"]
+        n["i"] += 1
+        kind = script[i] if i < len(script) else "ok"
+        log.append(("invoke", i + 1, kind))
+        return kind
+
+    def op():
+        kind = outcome()
+        if kind == "hang":
+            release.wait(5.0)          # far beyond the attempt timeout; released when the run is over
+            return "late"
+        if kind == "exc":
+            raise Boom()
+        return "value"
+
+    async def aop():
+        kind = outcome()
+        if kind == "hang":
+            await asyncio.sleep(5.0)   # cancelled by the attempt timeout
+            return "late"
+        if kind == "exc":
+            raise Boom()
+        return "value"
+
+    def on_metric(event, attempt, sleep_s, tags):
+        log.append(("event", event, attempt, tags.get("class"), tags.get("stop_reason")))
+
+    kw = dict(classifier=lambda exc: ErrorClass.TRANSIENT, strategy=lambda ctx: 0.0, max_attempts=3,
+              attempt_timeout_s=ATT_TIMEOUT, deadline_s=60.0)
+    call_kw = dict(on_metric=on_metric)
+    try:
+        if entry in ("Retry", "AsyncRetry", "RetryPolicy", "AsyncRetryPolicy"):
+            obj = getattr(rp, entry)(**kw)
+        elif entry in ("Policy", "AsyncPolicy"):
+            obj = getattr(rp, entry)(retry=(rp.AsyncRetry if is_async else rp.Retry)(**kw))
+        else:
+            wrapped = rp.retry(**kw, on_metric=on_metric)(aop if is_async else op)
+            obj = None
+        try:
+            if obj is None:
+                res = asyncio.run(wrapped()) if is_async else wrapped()
+            else:
+                m = obj.call if mode == "call" else obj.execute
+                res = asyncio.run(m(aop, **call_kw)) if is_async else m(op, **call_kw)
+        except BaseException as exc:  # noqa: BLE001
+            log.append(("raised", type(exc).__name__))
+        else:
+            if mode == "call" or obj is None:
+                log.append(("returned", res))
+            else:
+                log.append(("outcome", res.ok, getattr(res.stop_reason, "value", None), res.attempts,
+                            type(res.last_exception).__name__ if res.last_exception is not None else None))
+    finally:
+        release.set()
+    return log
+
+
+def timeout_twins(rep: Report, tier: str = "quick") -> int:
+    from . import vtime as _vt
+    _vt.set_active(None)              # real time
+    runs = 0
+    for script in HANG_SCRIPTS:
+        for mode in ("call", "exec"):
+            entries = ["Retry", "AsyncRetry", "Policy"]
+            if tier != "quick":
+                entries += ["AsyncPolicy", "RetryPolicy", "AsyncRetryPolicy"]
+                if mode == "call":
+                    entries += ["decorator", "async-decorator"]
+            ref = None
+            for entry in entries:
+                log = _timeout_run(entry, script, mode)
+                runs += 1
+                if ref is None:
+                    ref = (entry, log)
+                elif log != ref[1]:
+                    rep.add_violation("C12:entry-points-disagree-when-attempt-timeouts-fire",
+                                      f"C12/{ref[0]}.{mode}-vs-{entry}.{mode}/attempt-timeout-fires", {
+                                          "script": script, "style": mode, "attempt_timeout_s": ATT_TIMEOUT,
+                                          "entry_a": ref[0], "observed_a": ref[1],
+                                          "entry_b": entry, "observed_b": log,
+                                          "how": "harness.relcheck._timeout_run(entry, script, style): the "
+                                                 "operation hangs (real time) on the marked attempts"})
+    return runs
+
 def check_c12(tier: str) -> Report:
     rep = Report(prop="C12", tier=tier, level="model_checking")
     mc = run_tlc("RetryMC.tla", "RetryMC_C12.cfg", tag="C12-mc", timeout=3000)
@@ -193,6 +303,7 @@ def check_c12(tier: str) -> Report:
             "cfg": v["cfg"], "script": v["script"], "trace_a": v["trace_a"], "trace_b": v["trace_b"],
             "how": "harness.retryenv.run_scenario(cfg, script, entry=<entry>, place='ctor', "
                    "force_mode=<style>, site_fault=<raising_callback>) for both entries"})
+    n_timeout_runs = timeout_twins(rep, tier)
     # call() vs execute(): the two deliveries of the same scenario must be related (TLC)
     pairs = [p for p in tot["pairs"] if p["fault"] is None]
     pv = tlc_validate("PairCheck", pairs, "C12-pairs", keys=("call", "exec"))
@@ -211,6 +322,7 @@ def check_c12(tier: str) -> Report:
     rep.coverage.update({
         "states": mc.distinct, "transitions": mc.generated, "behaviours_exported": len(behs),
         "scenarios_incl_raising_callbacks": tot["scen"], "entry_point_executions": tot["runs"],
+        "runs_with_firing_attempt_timeouts": n_timeout_runs,
         "traces_validated_against_impl": tot["runs"],
         "entry_points": list(retryenv.ENTRY_POINTS), "call_execute_pairs_checked_by_tlc": len(pairs),
         "scenarios_differing_from_M": tot["drift"], "exhaustive": True,
